@@ -47,10 +47,13 @@ func c12Plmn(c *core.Ctx, k *core.Case) {
 			for mncN := 0; mncN < lim; mncN++ {
 				mnc := fmt.Sprintf("%0*d", w, mncN)
 				want := refconv.PlmnWire(mcc, mnc)
-				got := nasConvert.PlmnIDToNas(models.PlmnId{Mcc: mcc, Mnc: mnc})
+				got, owned := ownedTwice(func() []byte { return nasConvert.PlmnIDToNas(models.PlmnId{Mcc: mcc, Mnc: mnc}) })
+				if owned != "" {
+					c.Fail(&core.Case{Oracle: "plmn-one", Target: "nasConvert.PlmnIDToNas", S: []string{mcc, mnc}}, "result-not-owned:PlmnIDToNas", owned)
+				}
 				n++
 				if mncN%97 == 0 {
-					c.Hold(&core.Case{Oracle: "plmn-one", Target: "nasConvert.PlmnIDToNas", S: []string{mcc, mnc}}, "nasConvert.PlmnIDToNas", got)
+					c.Hold(&core.Case{Oracle: "plmn-one", Target: "nasConvert.PlmnIDToNas", S: []string{mcc, mnc}}, "nasConvert.PlmnIDToNas", nasConvert.PlmnIDToNas(models.PlmnId{Mcc: mcc, Mnc: mnc}))
 				}
 				if !bytes.Equal(got, want[:]) {
 					kk := &core.Case{Oracle: "plmn-one", Target: "nasConvert.PlmnIDToNas", S: []string{mcc, mnc}}
